@@ -107,6 +107,9 @@ func TestSlowSubscriber(t *testing.T) {
 	rapid.Check(t, world.Prop(func(t *rapid.T) {
 		stallPeriods := rapid.IntRange(2, 6).Draw(t, "stalledForPeriods")
 		how := rapid.SampledFrom([]string{"stop", "remove"}).Draw(t, "call")
+		// once the stalled notification is through, the connection may stay slow: every further write takes
+		// longer than a period, so that the next tick is due whenever a refresh has been notified
+		slowAfterwards := rapid.Bool().Draw(t, "connectionStaysSlow")
 		const timeout = 100 * time.Millisecond
 		fx := newFixture(t, timeout, 1, false, false)
 		defer fx.close()
@@ -121,6 +124,8 @@ func TestSlowSubscriber(t *testing.T) {
 			if armed.CompareAndSwap(true, false) {
 				blocked.Store(true)
 				<-release
+			} else if slowAfterwards && blocked.Load() {
+				time.Sleep(timeout + timeout/4)
 			}
 		})
 		fx.waitRefreshes(fx.obs.count(0), 2, 2*time.Second)
@@ -158,18 +163,21 @@ func TestSlowSubscriber(t *testing.T) {
 		atReturn := fx.obs.sample(fx.feat)
 		unblock()
 		time.Sleep(time.Duration(silencePeriods)*timeout + 50*time.Millisecond)
+		if slowAfterwards {
+			time.Sleep(3 * timeout) // (whatever still goes out takes its time)
+		}
 		after := fx.obs.sample(fx.feat)
 		if !atReturn.HasCtr || !after.HasCtr {
 			t.Fatalf("harness: heartbeat data without counter: %s / %s", atReturn.Text, after.Text)
 		}
 		if after.Counter > atReturn.Counter+1 {
-			world.Fail(t, "C16/refresh-after-stop/slow-subscriber-"+how, "the connection of the subscriber was stalled for %d periods of %v; the heartbeat counter was %d when %s returned and is %d now: %d refreshes completed afterwards (at most one was in flight)", stallPeriods, timeout, atReturn.Counter, how, after.Counter, after.Counter-atReturn.Counter)
+			world.Fail(t, "C16/refresh-after-stop/slow-subscriber-"+how, "the connection of the subscriber was stalled for %d periods of %v; the heartbeat counter was %d when %s returned and is %d now: %d refreshes completed afterwards (at most one was in flight; connection slow afterwards: %v)", stallPeriods, timeout, atReturn.Counter, how, after.Counter, after.Counter-atReturn.Counter, slowAfterwards)
 		}
 		time.Sleep(2 * timeout)
 		if last := fx.obs.sample(fx.feat); last.Counter != after.Counter {
 			world.Fail(t, "C16/refresh-after-stop/slow-subscriber-"+how+"-stream-alive", "%d periods after %s returned the counter still advances (%d -> %d)", silencePeriods+2, how, after.Counter, last.Counter)
 		}
-		world.Record(world.Hash("slow-subscriber", stallPeriods, how), true, "slow-subscriber/"+how, fmt.Sprintf("slow-subscriber/stalled-%d-periods", stallPeriods))
+		world.Record(world.Hash("slow-subscriber", stallPeriods, how, slowAfterwards), true, "slow-subscriber/"+how, fmt.Sprintf("slow-subscriber/slow-afterwards/%v", slowAfterwards), fmt.Sprintf("slow-subscriber/stalled-%d-periods", stallPeriods))
 		if world.WantSample() {
 			world.Sample(map[string]any{"check": "slow-subscriber", "stalled_periods": stallPeriods, "call": how, "counter_at_return": atReturn.Counter, "counter_afterwards": after.Counter})
 		}
